@@ -18,8 +18,13 @@ from .. import cg, core, vt
 MAX_SAFE = 2 ** 53 - 1
 
 
+EVALUATED = {}   # constant name -> value computed by rustc (filled per run from the compiled uses)
+
+
 def fold(expr, consts, depth=0):
     """Const-fold a token string: integer literals, unary minus, `as` casts, named constants, + and -."""
+    if expr.strip() in EVALUATED:
+        return EVALUATED[expr.strip()]
     e = expr.replace(' ', '').replace('_', '') if re.fullmatch(r'[\s\d_]+', expr) else expr
     e = e.strip()
     if depth > 8:
@@ -123,8 +128,22 @@ def run(ctx, rep):
     consts = {i['name']: i['expr'] for i in ctx.items('const', file='lib/src/integer.rs')}
     site = {'file': 'lib/src/integer.rs', 'line': 0}
     want = {'U53_MAX': MAX_SAFE, 'I54_MAX': MAX_SAFE, 'I54_MIN': -MAX_SAFE}
+    # the value rustc itself computed for the constant (any spelling: literals, shifts, casts, other constants), read from
+    # the compiled uses of the constant; the token-level fold is only the fall-back for a constant that is never used
+    evaluated = {}
+    for b_ in ctx.mirq('all')['crates']['typeshare']['bodies']:
+        for k_ in b_.get('consts', []):
+            m_ = re.fullmatch(r'const (?:\w+::)*integer::(\w+)', k_.get('text', ''))
+            if m_ and re.fullmatch(r'-?\d+', str(k_.get('val', ''))):
+                evaluated.setdefault(m_.group(1), set()).add(int(k_['val']))
+    EVALUATED.clear()
+    EVALUATED.update({n_: next(iter(v_)) for n_, v_ in evaluated.items() if len(v_) == 1})
     for name, val in want.items():
         got = fold(consts.get(name, ''), consts) if name in consts else None
+        if len(evaluated.get(name, ())) == 1:
+            got = next(iter(evaluated[name]))
+        elif got is None and name in consts:
+            raise core.Incomplete(f'J1: the value of {name} (`{consts[name]}`) could be neither read from compiled code nor folded')
         rep.check(got == val, 'J1', f'const:{name}', f'{name} = {got}', f"{name} const-folds to {got} (from `{consts.get(name)}`), but the JavaScript-safe limit is {val}: values outside [−(2^53−1), 2^53−1] would be accepted / in-range values rejected", {'file': 'lib/src/integer.rs', 'line': next((i['line'] for i in ctx.items('const', name, 'integer.rs')), 0)})
     # J2 macro invocations
     inv = [i for i in ctx.items('macro', file='lib/src/integer.rs') if i.get('path') == 'truncated_type']
